@@ -76,6 +76,9 @@ func main() {
 			}()
 			f(w, r)
 		}()
+		if *tier == "thorough" && !*noev && *goos == "" && *goarch == "" {
+			runThoroughExtras(*prop, *repo, *verif, r)
+		}
 		loadInfo["functions_analysed"] = w.countFuncs()
 	}
 	os.Exit(r.Finish(*verif, loadInfo, !*noev))
